@@ -39,7 +39,7 @@ def gen_restart_together(r, tier):
 class C15(Prop):
     id = "C15"
     lean_modules = ["Fan2go.Props.C15", "Fan2go.Props.C15b"]
-    fact_modules = ["Fan2go.Props.Facts"]
+    fact_modules = ["Fan2go.Props.Facts", "Fan2go.Props.Trans3Init"]
     rule = ("startup: the REAL DefaultFanController.Run on fans over virtual devices with a real bbolt file in virtual time, stopped "
             "right after the first regulation cycle; sequences of start / reset / init (<= 6) over {hwmon, file} x configured "
             "pwmMap on/off x configured min+max on/off x RPM input on/off; every PWM write before the first regulation cycle is "
